@@ -45,7 +45,7 @@ def lineOfJson (j : Json) : Except String Line := do
     | "spaces" => pure Kind.spaces
     | "comment" => pure Kind.comment
     | "id" => pure Kind.id
-    | "event" => pure (Kind.event (← getText j "v"))
+    | "event" => pure (Kind.event ((getText j "v").toOption.getD []))   -- the harness omits an empty event name
     | "data" => pure (Kind.data (← payloadOfJson j))
     | "other" => pure Kind.other
     | k => throw s!"line kind {k}"
